@@ -171,7 +171,14 @@ func kindOK(v *structpb.Value, t protomodel.FieldType) bool {
 		}
 		_, err := uuid.Parse(v.GetStringValue())
 		return err == nil
-	case tINTEGER, tDOUBLE:
+	case tINTEGER:
+		// an INTEGER field holds numbers with an exact int64 representation
+		if _, ok := v.GetKind().(*structpb.Value_NumberValue); !ok {
+			return false
+		}
+		n := v.GetNumberValue()
+		return n == math.Trunc(n) && n >= -9223372036854775808.0 && n < 9223372036854775808.0
+	case tDOUBLE:
 		_, ok := v.GetKind().(*structpb.Value_NumberValue)
 		return ok
 	case tBOOLEAN:
